@@ -224,6 +224,7 @@ class LookupProfile(HistoryProfile):
     cfg["none_p"] = rng.choice([0.0, 0.05])
     cfg["alt_text_p"] = rng.choice([0.0, 0.03])
     cfg["max_rows"] = rng.choice([6, 10, 14])
+    cfg["blank_sort_p"] = rng.choice([0.0, 0.1, 0.25])
     return cfg
 
   def check(self, sim, out, st):
